@@ -19,7 +19,7 @@ for f in $(cd $W/mut/base 2>/dev/null; cd $W/mut && find . -name "*.py" | sed 's
 import re,sys
 p=sys.argv[1]; s=open(p).read()
 s=re.sub(r"np\.asarray\((tpr|fnr|tnr|fpr|topr|tonr)\)", r"np.asarray(\1, dtype=float)", s)
-s=s.replace("np.isclose(self.hard_pos_ratio, self.hard_neg_ratio)", "np.isclose(self.hard_pos_ratio, self.hard_neg_ratio, atol=0.0)")
+s=s.replace("np.isclose(self.hard_pos_ratio, self.hard_neg_ratio)", "np.isclose(self.hard_pos_ratio, self.hard_neg_ratio, rtol=1e-12, atol=0.0)")
 open(p,"w").write(s)
 P
   fi
